@@ -174,6 +174,16 @@ CHECKS = {
                  "ConvertToCurrent has the right roles. Two design-level defects (unguarded SetCurrent, mapping kept by reference) are recorded findings.",
         "note": NOTE,
     },
+    "C18": {
+        "technique": "operator-table extraction from the dunder bodies of Fraction and FractionValue; sibling cross-check of FractionScalar against "
+                     "Scalar (normalised statement comparison, shared orientation/validation rules); conversion-intent analysis of the "
+                     "parts of a FractionValue against the affine rows of the interpreted table",
+        "level": "Every arithmetic and order dunder of Fraction / FractionValue applies the matching operation on the denoted amount; "
+                 "FractionScalar orders, validates and converts like Scalar; the number and the numerator are converted by two separate unit "
+                 "conversions while 7 table units have an offset - a refutation for those units, recorded as a finding. CreateFromFloat, "
+                 "the format/parse round trip and float exactness are not decided (they quantify over digit strings).",
+        "note": NOTE,
+    },
     "C19": {
         "technique": "exhaustive default-category resolution over the interpreted table; flow-sensitive def-use terms for constructor "
                      "argument roles; format-string/argument order analysis of __repr__",
@@ -195,9 +205,7 @@ CHECKS = {
     },
 }
 
-NOT_APPLICABLE = {
-    **{"C%02d" % i: "check not built yet in this round (static rules designed in DESIGN.md §5; under construction)" for i in range(2, 21) if "C%02d" % i not in CHECKS},
-}
+NOT_APPLICABLE = {}
 
 NOTES = ("All checks are `./check <id> --tier quick|thorough` (python, stdlib only). Exit 0 = all obligations discharged or listed in "
          "known_findings.json (printed as KNOWN-FINDING lines); exit 1 = VIOLATION lines with replay files under evidence/violations/; "
